@@ -328,7 +328,8 @@ def _d_body(di, pos, ins):
 PAIR_POOL = (cells.Note('8', dots=1, pitch='c'), cells.Note('', mark='', pitch='dd', decs=((3, 'q'),)), cells.Rest(''), cells.Note('4', pitch='e', acc='-'),
              cells.Note('', pitch='cc', acc='n', decs=((3, 'L'),)), cells.Rest('2', dots=1), cells.Note('', pitch='GG', decs=((3, 'q'),)),
              cells.Note('', pitch='f', acc='#'), cells.Note('16', dots=1, pitch='gg', acc='#', decs=((3, 'J'),)),
-             cells.Chord((cells.Note('4', pitch='c'), cells.Note('4', pitch='e'))), cells.Bar(number='7', type='||'))
+             cells.Chord((cells.Note('4', pitch='c'), cells.Note('4', pitch='e'))), cells.Bar(number='7', type='||'),
+             cells.Bar(number='7', type=':|!', fermata=True), cells.Bar(double=True), cells.Bar(number='12', ab='a'))
 
 
 def ob_f(i: int, j: int, arr: int) -> bool:
@@ -368,8 +369,8 @@ def _desc_b(grid, k):
 OBLIGATIONS = [
     Ob(id='C03.f', fn=ob_f, title='a cell\'s export does not depend on the cell parsed before it (durationless notes, bare rests, chords, barlines)',
        shard_of=lambda i, j, arr: i, shards={'quick': 4, 'thorough': 4}, budget_s={'quick': 120, 'thorough': 600},
-       witnesses=[{'i': 0, 'j': 1, 'arr': 0}], min_confirmed=200, enumerated='ordered pair from an 11-cell pool x arrangement (rows of one spine, neighbouring spines, diagonal)',
-       bounds={'quick': '11 x 11 ordered pairs x 3 arrangements', 'thorough': 'same'}),
+       witnesses=[{'i': 0, 'j': 1, 'arr': 0}], min_confirmed=200, enumerated='ordered pair from a 14-cell pool x arrangement (rows of one spine, neighbouring spines, diagonal)',
+       bounds={'quick': '14 x 14 ordered pairs x 3 arrangements (barline lines with different barlines per spine included)', 'thorough': 'same'}),
     Ob(id='C03.a', fn=ob_a, title='non-note cells verbatim: arbitrary text behind a stubbed spine importer',
        shard_of=lambda kind, s, col: kind, shards={'quick': 13, 'thorough': 13}, budget_s={'quick': 170, 'thorough': 1800},
        witnesses=[{'kind': 0, 's': 'la', 'col': 0}, {'kind': 12, 's': 'x', 'col': 1}], min_confirmed=26,
